@@ -481,20 +481,30 @@ func H_close_vs_op() {
 	go w.readEvents()
 	p := verifCtlPaths[verifChoose("path", len(verifCtlPaths))]
 	op := verifChoose("op", 3)
-	r := make(chan error, 1)
-	go func() {
+	call := func() error {
 		switch op {
 		case 0:
-			r <- w.Add(p)
+			return w.Add(p)
 		case 1:
-			r <- w.Remove(p)
-		case 2:
-			_ = w.WatchList()
-			r <- nil
+			return w.Remove(p)
 		}
-	}()
-	verifAssert(w.Close() == nil, "Close returns nil")
-	e := <-r
+		_ = w.WatchList()
+		return nil
+	}
+	var e error
+	if verifBool("close-from-goroutine") {
+		// the call is under way when another goroutine closes the Watcher
+		c := make(chan error, 1)
+		go func() { c <- w.Close() }()
+		e = call()
+		verifAssert(<-c == nil, "Close returns nil")
+	} else {
+		r := make(chan error, 1)
+		go func() { r <- call() }()
+		verifYield()
+		verifAssert(w.Close() == nil, "Close returns nil")
+		e = <-r
+	}
 	if op == 0 && e != nil && errors.Is(e, ErrClosed) {
 		verifReach("close-vs-op-add-lost-race")
 	}
